@@ -207,10 +207,12 @@ func (hc *HistCheck) runLayers(layers []Layer, budget time.Duration) (*explore.S
 	total := &explore.Stats{Exhaustive: true, Outcomes: map[string]int{}}
 	var reports []LayerReport
 	for li, l := range layers {
-		// No layer may eat the whole budget: each gets at most twice its even share of what is left.
+		// No layer may eat the budget of the ones after it: each gets at most its even share of what is left
+		// (time a layer does not use is inherited by the later ones; a factor above 1 starves the last layers
+		// geometrically: with 14 layers and factor 2 the last two were left 1% of the budget).
 		ld := deadline
 		if left := time.Until(deadline); left > 0 {
-			if share := time.Now().Add(2 * left / time.Duration(len(layers)-li)); share.Before(ld) {
+			if share := time.Now().Add(left / time.Duration(len(layers)-li)); share.Before(ld) {
 				ld = share
 			}
 		}
